@@ -29,7 +29,7 @@ def shards(tier, seed):
     out.append(("curvevals", dict(kind="curvevals", reps=1 if q else 6)))
     for i in range(4 if q else 16):
         out.append(("randorders_%d" % i, dict(kind="rand", count=60 if q else 400)))
-    for c in lib.pick_curves(tier, seed, extra=3):
+    for c in lib.pick_curves(tier, seed, extra=12):
         out.append(("det_%s" % c.name, dict(kind="det", cname=c.name, count=5 if q else 40)))
     ts = sigs.toy_prime_curves(5, 31 if q else 61)
     lt = [t for t in ts if t.N < t.curve.p]
